@@ -1,49 +1,56 @@
 /-
 C03 round 4 — the comparison looks at the VALUE (`val`, unescaped) of two entities, never at the raw text
 (`raw_val`): composition of the loop of Compare/Pipeline.lean with the value semantics proved for C02.
+
+Adapted to the five-format pipeline of C05: `Entry.equals` is `Pipe.entEquals cls` (key and val for every class but
+Fluent's, whose `FluentEntity.equals` compares the ASTs — `C03.fluent_equals_is_erased_equality`), `count_words()` is the
+field `PEnt.words` (= `Cmp.countWords val` for everything the regex parsers build, `PipeBridge.mkEnt_words`), and the
+external functions `ext` are a parameter that `.properties` never consults.
 -/
 import CLModel.Compare.Pipeline
 import CLModel.Proofs.C02Props
+import CLModel.Proofs.FixPipeBridge
 namespace C03V
 open Pipe
 
 /-- a `.properties` entity built by the parser model: `val` is the documented unescape of `raw_val` -/
-theorem mkEnt_props_val (s : Array Nat) (h : Hist.Ent) (e : PEnt) (hm : mkEnt .properties s h = .ok e) (hj : e.junk = false) :
-    e.val = P.propsUnescapeSpec e.raw := by
+theorem mkEnt_props_val (ext : Ext) (s : Array Nat) (h : Hist.Ent) (e : PEnt) (hm : mkEnt ext P.Fmt.properties s h = .ok e)
+    (hj : e.junk = false) : e.val = P.propsUnescapeSpec e.raw := by
   unfold mkEnt at hm
   cases hjid : h.jid with
   | some id =>
     rw [hjid] at hm
     simp only [Except.ok.injEq] at hm
     subst hm
-    simp at hj
+    simp [mkJunk] at hj
   | none =>
     rw [hjid] at hm
-    simp only [P.entView] at hm
+    simp only [P.entView, entVal] at hm
     rw [P.propsVal_eq_spec] at hm
     simp only [Except.ok.injEq] at hm
     subst hm
     rfl
 
-/-- the `equal` branch of the loop: a shared key that is not a key binding is `unchanged` iff key and VALUE agree;
-    `raw_val` plays no role, and the words counted are those of the reference VALUE -/
-theorem equal_step_by_val (env : Env) (ref l10n : List PEnt) (st st' : LoopSt) (k : Cmp.Key) (refent l10nent : PEnt)
+/-- the `equal` branch of the loop, for every entity class with `Entry.equals` (all but Fluent): a shared key that is
+    not a key binding is `unchanged` iff key and VALUE agree; `raw_val` plays no role, and the words counted are
+    `count_words()` of the reference entity -/
+theorem equal_step_by_val (env : Env) (hcls : env.cls ≠ .fluent) (ref l10n : List PEnt) (st st' : LoopSt) (k : Cmp.Key)
+    (refent l10nent : PEnt)
     (hr : lookup ref k = .ok refent) (hl : lookup l10n k = .ok l10nent) (hk : Cmp.keyMatch k = false)
     (h : step env ref l10n st (.equal, k) = .ok st') :
     st'.stats = (if refent.key == l10nent.key && refent.val == l10nent.val then
-        { st.stats with unchanged := st.stats.unchanged + 1, unchanged_w := st.stats.unchanged_w + Cmp.countWords refent.val }
-      else { st.stats with changed := st.stats.changed + 1, changed_w := st.stats.changed_w + Cmp.countWords refent.val }) := by
-  simp only [step, hr, hl, hk, Bool.false_eq_true, if_false] at h
+        { st.stats with unchanged := st.stats.unchanged + 1, unchanged_w := st.stats.unchanged_w + refent.words }
+      else { st.stats with changed := st.stats.changed + 1, changed_w := st.stats.changed_w + refent.words }) := by
+  simp only [step, hr, hl, hk, Bool.false_eq_true, if_false,
+    PipeBridge.entEquals_of_ne_fluent hcls] at h
   by_cases hj : refent.junk = true
   · simp [hj] at h
   · simp only [hj, Bool.false_eq_true, if_false] at h
-    cases hck : runChecker env.ck env.file.locale refent l10nent with
-    | error e => split at h <;> simp [hck] at h
-    | ok results =>
-      split at h
-      · rename_i e he
-        split at he <;> cases he
-      · rename_i stats hs
+    cases hb : (refent.key == l10nent.key && refent.val == l10nent.val) <;>
+    · simp only [hb] at h
+      cases hck : runChecker env.ck refent l10nent with
+      | error e => simp [hck] at h
+      | ok results =>
         rw [hck] at h
         simp only at h
         cases hc : checkLoop env refent l10nent results (st.obs, st.skips) with
@@ -52,13 +59,13 @@ theorem equal_step_by_val (env : Env) (ref l10n : List PEnt) (st st' : LoopSt) (
           rw [hc] at h
           simp only [Except.ok.injEq] at h
           subst h
-          simp only
-          split at hs <;> simp only [Except.ok.injEq] at hs <;> subst hs <;> simp_all
+          simp
 
 /-- two entities of a `.properties` file pair whose raw texts unescape to the same value are equal for the comparison -/
-theorem props_same_value (s1 s2 : Array Nat) (h1 h2 : Hist.Ent) (a b : PEnt) (ha : mkEnt .properties s1 h1 = .ok a)
-    (hb : mkEnt .properties s2 h2 = .ok b) (ja : a.junk = false) (jb : b.junk = false)
+theorem props_same_value (ext : Ext) (s1 s2 : Array Nat) (h1 h2 : Hist.Ent) (a b : PEnt)
+    (ha : mkEnt ext P.Fmt.properties s1 h1 = .ok a)
+    (hb : mkEnt ext P.Fmt.properties s2 h2 = .ok b) (ja : a.junk = false) (jb : b.junk = false)
     (hv : P.propsUnescapeSpec a.raw = P.propsUnescapeSpec b.raw) : a.val = b.val := by
-  rw [mkEnt_props_val s1 h1 a ha ja, mkEnt_props_val s2 h2 b hb jb, hv]
+  rw [mkEnt_props_val ext s1 h1 a ha ja, mkEnt_props_val ext s2 h2 b hb jb, hv]
 
 end C03V
